@@ -48,4 +48,13 @@ for sid in ids:
     json.dump(meta, open(os.path.join(d, "meta.json"), "w"), indent=1)
     rows.append((sid, meta["detected"], meta["detected_with_concrete_input"], (replay or {}).get("stream"), (replay or {}).get("input", "")[:70]))
     print(sid, "DETECTED" if viol else "MISSED", "(concrete)" if meta["detected_with_concrete_input"] else "", flush=True)
-json.dump(rows, open(os.path.join(V, "seeded", "SUMMARY.json"), "w"), indent=1)
+# the summary is rebuilt from every meta.json (also those written by earlier runs)
+allrows = []
+for sid in sorted(os.listdir(os.path.join(V, "seeded"))):
+    mp = os.path.join(V, "seeded", sid, "meta.json")
+    if os.path.exists(mp):
+        m = json.load(open(mp))
+        r = m.get("replay") or {}
+        allrows.append(dict(seed=sid, property=m["breaks_property"], detected=m["detected"], concrete_input=m["detected_with_concrete_input"],
+                            stream=r.get("stream"), input=(r.get("input") or "")[:120]))
+json.dump(allrows, open(os.path.join(V, "seeded", "SUMMARY.json"), "w"), indent=1)
